@@ -383,9 +383,9 @@ class SymNumpy:
     def clip(x, lo, hi):
         if not (is_sym(x) or is_sym(lo) or is_sym(hi)):
             return _np.clip(x, lo, hi)
-        if bool(x < lo):
+        if lo is not None and bool(x < lo):
             return lo
-        if bool(x > hi):
+        if hi is not None and bool(x > hi):
             return hi
         return x
 
@@ -438,6 +438,22 @@ def sym_float(x=0.0):
     if isinstance(x, _np.ndarray) and x.dtype == object and x.ndim == 0:
         return sym_float(x.item())
     return float(x)
+
+
+class _FloatMeta(type):
+    def __instancecheck__(cls, inst):
+        return isinstance(inst, float)
+
+    def __subclasscheck__(cls, sub):
+        return issubclass(sub, float)
+
+
+class SymFloat(metaclass=_FloatMeta):
+    """default module-level `float` in every patched perception_eval module: `float(x)` is the identity on symbolic
+    scalars, `isinstance(x, float)` keeps its meaning"""
+
+    def __new__(cls, x=0.0):
+        return sym_float(x)
 
 
 def sym_int(x=0, *a):
